@@ -15,6 +15,9 @@ def gen(rng, tier):
         keys = srvgen.gen_keys(rng)
         for cut in range(len(req) + 1):
             yield f"{rng.choice('ut')} {rng.choice([512, 1232])} {cat} {keys} {dnsgen.hx(req[:cut])}"
+            if cut >= 12 and cut % 2 == 0:
+                # the prefix ending in a significant octet: pointer start, longest label, over-long label
+                yield f"{rng.choice('ut')} 512 {cat} {keys} {dnsgen.hx(req[:cut] + [rng.choice([0xC0, 0xFF, 63, 64])])}"
     # raw random bytes
     for _ in range(1000 if quick else 50000):
         req = [rng.randrange(256) for _ in range(rng.randint(0, 64))]
